@@ -7,6 +7,8 @@
 (*   0: 0        1: 1          2: 2^32-1    3: 2^32      4: 2^32+1         *)
 (*   5: 2^63-1   6: 2^63       7: 2^63+1    8: 2^64-2    9: 2^64-1         *)
 (*  10: 0xAA..AA 11: 0x55..55 12: 0x0123456789ABCDEF (all bytes distinct)  *)
+(*  13: 3  (0x55..55 * 3 = 2^64-1: with all-ones below it, the product      *)
+(*      carries out of the cross-product sum without any high word)        *)
 (* A K-limb operand is a tuple of K pattern numbers (limb 0 first).        *)
 (* Operand sets:  Combo(K,S) = every combination of the patterns of S in   *)
 (* the K limbs;  Family(K,P,F) = pattern p of P in one limb, the same      *)
@@ -25,6 +27,7 @@ CONSTANTS Ks,         \* limb counts explored: subset of {1, 2, 4}
           PShift,     \* patterns of the shifted operands
           PPartner,   \* patterns of the second operand of "bin"
           PMul,       \* patterns of the multiplication operands
+          PMulFill,   \* their fillers
           PDivA, PDivB,   \* patterns of dividend / divisor
           PDivFill,       \* fillers of the dividend
           PX          \* patterns of the Uint64 carry operations
@@ -44,7 +47,8 @@ PatBytes == <<
   <<255, 255, 255, 255, 255, 255, 255, 255>>,    \*  2^64-1
   <<170, 170, 170, 170, 170, 170, 170, 170>>,    \*  0xAAAAAAAAAAAAAAAA
   <<85, 85, 85, 85, 85, 85, 85, 85>>,            \*  0x5555555555555555
-  <<239, 205, 171, 137, 103, 69, 35, 1>> >>      \*  0x0123456789ABCDEF
+  <<239, 205, 171, 137, 103, 69, 35, 1>>,        \*  0x0123456789ABCDEF
+  <<3, 0, 0, 0, 0, 0, 0, 0>> >>                  \*  3 = 2^1+1 = 2^2-1
 
 Bytes(p) == Force([i \in 1..(8 * Len(p)) |-> PatBytes[p[(i - 1) \div 8 + 1] + 1][((i - 1) % 8) + 1]])
 
@@ -55,7 +59,7 @@ Vals(K) == Combo(K, PCombo) \cup Family(K, PAll, PFill)
 
 ShVals(K)   == Family(K, PShift, PFill) \cup Combo(K, PShift \cap PCombo)
 Partners(K) == Family(K, PPartner, PFill) \cup Combo(K, PPartner \cap PCombo)
-MulVals(K)  == Family(K, PMul, {0}) \cup Combo(K, PMul \cap PCombo)
+MulVals(K)  == Family(K, PMul, PMulFill) \cup Combo(K, PMul \cap PCombo)
 DivA(K)     == Family(K, PDivA, PDivFill)
 DivB(K)     == { t \in Family(K, PDivB, {0}) \cup Family(K, PDivB \cap PCombo, {9}) : \E j \in 1..K : t[j] # 0 }
 
